@@ -4,7 +4,7 @@
    (name, attributes) and the operand values; integer and float operations are covered uniformly. *)
 From Snax Require Import Base.Prelude Model.C20Phs Model.C20Order Proofs.C20PhsProofs Proofs.C20DecodeProofs
   Proofs.C20SearchProofs Proofs.C20AppendProofs Proofs.C20HistoryProofs Proofs.C20WfProofs
-  Proofs.C20HistoryFullProofs Proofs.C20EncodeProofs Proofs.C20EncodeSemProofs Proofs.C20EndToEndProofs.
+  Proofs.C20HistoryFullProofs Proofs.C20EncodeProofs Proofs.C20EncodeSemProofs Proofs.C20EndToEndProofs Proofs.C20TotalProofs.
 
 (* valid_mapping_sem: if valid_mapping accepts the mux assignment mu for the kernel graph g against the
    abstract graph G, then G — with its mux switches set as mu says and its choose switches selecting g's
@@ -22,7 +22,8 @@ Print Assumptions C20_valid_mapping_sem.
 
 (* decode_sound: whatever decode_abstract_graph returns for kernel g against a well-formed abstract
    graph G configures G to compute g's function, provided decode's choice by operation *type* picks the
-   kernel's operation (ops_agree; its failure is the known class not_distinct_by_type). *)
+   kernel's operation (ops_agree: the kernel's operation is among the alternatives; decode does not look at
+   one-alternative choose ops at all). *)
 Theorem C20_decode_sound :
   forall opsem G g sw,
     pe_wf G = true -> nodup_ids (map nid (pnodes g)) = true -> ops_agree g G = true ->
@@ -65,7 +66,7 @@ Print Assumptions C20_append_pe_wf.
    undecodable nor changes the function it decodes to *)
 Theorem C20_append_keeps_decode :
   forall opsem g g' G G',
-    pe_wf G = true -> kernel_ok g = true -> plain_pe G = true -> plain_pe g' = true -> pdata g = pdata G ->
+    pe_wf G = true -> kernel_ok g = true -> pdata g = pdata G ->
     embeds g G -> append g' G = Some G' ->
     exists sw', decode G' g = Some sw' /\ embeds g G' /\
                 forall ins v swg, eval_pe opsem g swg ins = Some v -> eval_pe opsem G' sw' ins = Some v.
@@ -91,8 +92,7 @@ Print Assumptions C20_history_correct.
    kernel graph: concrete, distinct choose ids (get_id), well-formed switches; attribute-free if the body is *)
 Theorem C20_encode_ok :
   forall b g, encode b = Some g ->
-    is_concrete g = true /\ nodup_ids (map nid (pnodes g)) = true /\ pe_wf g = true /\
-    (plain_body b = true -> plain_pe g = true).
+    is_concrete g = true /\ nodup_ids (map nid (pnodes g)) = true /\ pe_wf g = true.
 Proof. exact encode_ok. Qed.
 Print Assumptions C20_encode_ok.
 
@@ -112,7 +112,7 @@ Print Assumptions C20_encode_sem.
 Theorem C20_bodies_history_correct :
   forall opsem bs gs G,
     Forall2 (fun b g => encode b = Some g) bs gs ->
-    (forall b, In b bs -> body_ok b = true /\ plain_body b = true) ->
+    (forall b, In b bs -> body_ok b = true) ->
     (forall g, In g gs -> pdata g = pdata G) ->
     merge_all gs = Some G ->
     forall b g, In (b, g) (combine bs gs) ->
@@ -121,6 +121,30 @@ Theorem C20_bodies_history_correct :
                       eval_pe opsem G sw (used_inputs b ins) = Some v.
 Proof. exact bodies_history_correct. Qed.
 Print Assumptions C20_bodies_history_correct.
+
+(* merge_succeeds: append_to_abstract_graph cannot raise on kernel graphs as convert_generic_body_to_phs builds
+   them (kernel_total_ok: concrete, unique ids, well-formed switches, operands defined earlier in the block and
+   within the data arguments, operand count = the id's type count, one yielded value — all decidable and
+   evaluated on every real encode result by L1) that share the number of data arguments. *)
+Theorem C20_merge_succeeds :
+  forall g0 rest d,
+    (forall g, In g (g0 :: rest) -> kernel_total_ok g = true /\ pdata g = d) ->
+    exists G, merge_all (g0 :: rest) = Some G /\ pdata G = d.
+Proof. exact merge_succeeds. Qed.
+Print Assumptions C20_merge_succeeds.
+
+(* history_correct_total: for EVERY non-empty history of such kernel graphs, in any order — no assumption that
+   the merge goes through, none on attributes — the merge yields a PE against which every kernel decodes, the
+   number of values equals get_true_switches, and under them the PE computes exactly the kernel's function. *)
+Theorem C20_history_correct_total :
+  forall opsem g0 rest d,
+    (forall g, In g (g0 :: rest) -> kernel_total_ok g = true /\ pdata g = d) ->
+    exists G, merge_all (g0 :: rest) = Some G /\
+      forall g, In g (g0 :: rest) ->
+        exists sw, decode G g = Some sw /\ true_switches G = Some (length sw) /\
+                   forall ins v swg, eval_pe opsem g swg ins = Some v -> eval_pe opsem G sw ins = Some v.
+Proof. exact history_correct_total. Qed.
+Print Assumptions C20_history_correct_total.
 
 (* non-vacuity: two kernels with different routing and operations; the merged PE has a mux and a
    two-alternative choose op, decode succeeds with a non-trivial switch list and every hypothesis holds *)
@@ -149,27 +173,27 @@ Example C20_history_nonvacuous :
   exists g1 g2 g3 G,
     encode ex_b1 = Some g1 /\ encode ex_b2 = Some g2 /\ encode ex_b3 = Some g3 /\
     merge_all [g1; g2; g3] = Some G /\ pe_wf G = true /\
-    forallb (fun g => kernel_ok g && pe_wf g && Nat.eqb (pdata g) (pdata G)) [g1; g2; g3] = true /\
+    forallb (fun g => kernel_ok g && pe_wf g && kernel_total_ok g && Nat.eqb (pdata g) (pdata G)) [g1; g2; g3] = true /\
     map (decode G) [g1; g2; g3] = [Some [0; 0; 0; 0; 0; 0; 0]; Some [1; 1; 1; 1; 1; 1; 0]; Some [2; 2; 0; 1; 0; 0; 1]].
 Proof.
   eexists _, _, _, _. repeat (split; [vm_compute; reflexivity|]). vm_compute. reflexivity.
 Qed.
 Print Assumptions C20_history_nonvacuous.
 
-(* Known finding C20-F1 (class not_distinct_by_type = ops_agree false), confirmed on the real code: without
-   the attribute-free hypothesis history_correct is FALSE.  Two kernels that differ in the predicate of
-   arith.cmpi only: the second one decodes (to an empty switch list) and the merged PE computes the first
-   kernel's function. *)
-Theorem C20_history_correct_attr_refuted :
-  exists opsem g1 g2 G sw ins,
+(* Former finding C20-F1 (operations differing only in an attribute shared one alternative), repaired by fix
+   29d845f which the model mirrors: two kernels that differ in the predicate of arith.cmpi only now get two
+   alternatives, the second kernel decodes to switch value 1 and the merged PE computes ITS function. *)
+Example C20_attr_kernels_distinct :
+  exists g1 g2 G,
     encode w_b1 = Some g1 /\ encode w_b2 = Some g2 /\ merge_all [g1; g2] = Some G /\
-    pe_wf G = true /\ ops_agree g2 G = false /\ decode G g2 = Some sw /\
-    eval_pe opsem G sw ins <> eval_pe opsem g2 [] ins.
+    kernel_total_ok g1 = true /\ kernel_total_ok g2 = true /\
+    decode G g1 = Some [0] /\ decode G g2 = Some [1] /\
+    eval_pe w_opsem G [1] [3; 5] = eval_pe w_opsem g2 [] [3; 5] /\
+    eval_pe w_opsem G [0] [3; 5] <> eval_pe w_opsem G [1] [3; 5].
 Proof.
-  exists w_opsem. eexists _, _, _, _, [3; 5].
-  repeat (split; [vm_compute; reflexivity|]). vm_compute. discriminate.
+  eexists _, _, _. repeat (split; [vm_compute; reflexivity|]). vm_compute. discriminate.
 Qed.
-Print Assumptions C20_history_correct_attr_refuted.
+Print Assumptions C20_attr_kernels_distinct.
 
 (* Known finding C20-F2 (class order_inversion = block_ordered false), confirmed on the real code: merging two
    kernels whose choose ids of different type signatures occur in different orders yields a block in which a
@@ -187,7 +211,7 @@ Print Assumptions C20_block_order_refuted.
 
 (* non-vacuity of the body-level statement: the three example bodies satisfy its hypotheses and evaluate *)
 Example C20_bodies_nonvacuous :
-  forallb (fun b => body_ok b && plain_body b) [ex_b1; ex_b2; ex_b3] = true /\
+  forallb body_ok [ex_b1; ex_b2; ex_b3] = true /\
   (forall opsem, eval_body opsem ex_b3 [5; 7; 0] =
                  Some [opsem (mkOp 22 0) [opsem (mkOp 20 0) [opsem (mkOp 21 0) [5; 5]; 7]; opsem (mkOp 21 0) [5; 5]]]) /\
   used_inputs ex_b3 [5; 7; 0] = [5; 7].
